@@ -81,17 +81,17 @@ def generate(ctx: Ctx, rep: Report) -> list:
     jobs = []
     if ctx.quick:
         jobs.append(("exh", "Simulator.tla", "Simulator_depth2.cfg", {},
-                     "all call histories of depth 2 over the 27-operation menu; 7 invariants at every state"))
+                     "all call histories of depth 2 over the 31-operation menu; 7 invariants at every state"))
         jobs.append(("exh3s", "Simulator.tla", "Simulator_depth3s.cfg", {},
-                     "all call histories of depth 3 over the reduced 14-operation menu; 7 invariants at every state"))
+                     "all call histories of depth 3 over the reduced 15-operation menu; 7 invariants at every state"))
         jobs.append(("deep", "Simulator.tla", "Simulator_deep.cfg",
-                     dict(simulate="num=4", depth=9, seed=ctx.seed, workers=8),
+                     dict(simulate="num=3", depth=9, seed=ctx.seed, workers=8),
                      "seeded -simulate behaviours of depth 8 (and the siblings of their last call)"))
     else:
         jobs.append(("exh", "Simulator.tla", "Simulator_depth3.cfg", {},
-                     "all call histories of depth 3 over the 27-operation menu; 7 invariants at every state"))
+                     "all call histories of depth 3 over the 31-operation menu; 7 invariants at every state"))
         jobs.append(("exh4", "Simulator.tla", "Simulator_depth4.cfg", {},
-                     "all call histories of depth 4 over the reduced 14-operation menu; 7 invariants at every state"))
+                     "all call histories of depth 4 over the reduced 15-operation menu; 7 invariants at every state"))
         jobs.append(("deep", "Simulator.tla", "Simulator_deep.cfg",
                      dict(simulate="num=60", depth=9, seed=ctx.seed, workers=8),
                      "seeded -simulate behaviours of depth 8 (and the siblings of their last call)"))
@@ -118,11 +118,17 @@ def generate(ctx: Ctx, rep: Report) -> list:
     for h in hs:
         for s in h:
             seen[(s["op"]["k"], s["raised"])] += 1
-    need = [(k, False) for k in ("sim", "tc", "proto", "ptc", "upd", "ov", "ss", "clear", "read")] + \
+    need = [(k, False) for k in ("sim", "tc", "proto", "ptc", "upd", "scale", "ov", "ss", "clear", "read")] + \
            [(k, True) for k in ("sim", "tc", "ptc")]
     for n in need:
         if seen[n] == 0:
             raise MachineryError(f"vacuity: no emitted history contains {n}")
+    zero_upd = sum(1 for h in hs for s in h if s["op"]["k"] == "upd" and s["op"]["v"] == 0)
+    zero_step = sum(1 for h in hs for s in h if s["op"]["k"] in ("proto", "ptc") and not s["raised"]
+                    and any(st["p"]["kin"] == 0 for st in s["op"]["steps"]))
+    if zero_upd == 0 or zero_step == 0:
+        raise MachineryError("vacuity: zero never occurs as a parameter value (update / protocol step)")
+    rep.notes["calls_setting_a_parameter_to_zero"] = {"update": zero_upd, "protocol_with_zero_step": zero_step}
     rep.notes["calls_emitted(kind,raised)"] = {f"{k}/{'refused' if r else 'accepted'}": v for (k, r), v in sorted(seen.items())}
     return hs
 
@@ -378,7 +384,7 @@ def run(ctx: Ctx) -> int:
         "parameter values in units of 1/64 (dyadic and whole nanoseconds: every float the harness passes is exact); "
         "histories with an epsilon point and no steady-state run are replayed a second time with ticks of 512 (an "
         "epsilon is then a relative 1e-6 of the absolute time) and rates scaled by 1/1024 (same k*dt per tick)",
-        "rows with |x| < 1e-2 (relative budget below the integrator's atol 1e-8) are judged at 1e-7 absolute and counted",
+        "rows with |x| < 1e-1 (relative budget below 10 x the integrator's atol 1e-8; pure decay with kin = 0 gets there) are judged at 1e-7 absolute and counted",
         "the steady-state point's time stamp is free (only later than the time reached); its value is compared "
         "with the flow over the observed interval at 1e-4 relative and then taken as observed (accuracy is C15)",
         "clear_results: the state restarted from is not specified; it is read from the first row afterwards",
@@ -410,7 +416,7 @@ def run(ctx: Ctx) -> int:
             nvals += stats.get("n", 0)
     rep.notes["values_compared_with_closed_form"] = nvals
     rep.notes["worst_error_over_tolerance"] = round(worst, 4)
-    rep.notes["fragile_rows_judged_at_integrator_atol(|x|<1e-2)"] = sum(st.get("fragile", 0) for _, st in outs)
+    rep.notes["fragile_rows_judged_at_integrator_atol(|x|<1e-1)"] = sum(st.get("fragile", 0) for _, st in outs)
     for h in hs[:: max(1, len(hs) // 3)][:3]:
         rep.sample({"calls": [s["op"] for s in h], "refused": [s["raised"] for s in h],
                     "predicted_index_ticks": [[show_time(q) for q in g["times"]] for g in h[-1]["st"]["segs"]]})
